@@ -458,6 +458,11 @@ func (x *btCtx) checkOwnership(rel string) {
 		if producers[fn.Name()] || selfGuarded[fn.Name()] || fn.Name() == "print" {
 			continue
 		}
+		// a function introduced since the rules were written is part of its callers' logic: it is expanded where it
+		// is called (with the caller's knowledge of what was made mutable), not judged on its own
+		if c.isNewHelper(fn) {
+			continue
+		}
 		name := c.fname(fn)
 		traces, complete := c.Trace(fn, TraceConfig{Inline: noInl})
 		if !complete {
